@@ -18,11 +18,13 @@ Record Oracles (K : FieldOps) : Type := mkOracles {
   dec_sig  : bytes -> option (car K);
   dec_pk   : bytes -> option (car K);
   (* scalar to_repr (little endian, 32 bytes) / from_repr / u64 embedding.
-     from_repr of the curve crates is NOT canonical: bytes >= r are re-read big-endian and
-     reduced; so only unrepr (repr a) = Some a is assumed, never the converse. *)
+     from_repr of the curve crates is NOT canonical: values >= r are reduced mod r (and rejected
+     only if that gives zero); so only unrepr (repr a) = Some a is assumed, never the converse. *)
   repr     : car K -> bytes;
   unrepr   : bytes -> option (car K);
   of_u64   : N -> car K;
+  (* serde (non human-readable) form of a scalar: 32 bytes big-endian, canonical on decode *)
+  sdec     : bytes -> option (car K);
   (* SHAKE128 (input, output length), SHA-256 *)
   xof      : bytes -> nat -> bytes;
   sha      : bytes -> bytes;
@@ -47,6 +49,7 @@ Arguments dec_pk {K} _ _.
 Arguments repr {K} _ _.
 Arguments unrepr {K} _ _.
 Arguments of_u64 {K} _ _.
+Arguments sdec {K} _ _.
 Arguments xof {K} _ _ _.
 Arguments sha {K} _ _.
 Arguments fs {K} _ _ _ _.
@@ -80,6 +83,7 @@ Record OracleLaws (K : FieldOps) (O : Oracles K) (sig_len pk_len : nat) : Prop :
   ol_repr_wf     : forall a, wfb (repr O a);
   ol_unrepr_repr : forall a, unrepr O (repr O a) = Some a;
   ol_repr_zero   : repr O (f0 K) = repeatN 0 32;
+  ol_sdec_ser    : forall a, sdec O (rev (repr O a)) = Some a;
   ol_xof_len     : forall s n, length (xof O s n) = n;
   ol_xof_prefix  : forall s n m, (n <= m)%nat -> firstn n (xof O s m) = xof O s n;
   ol_sha_len     : forall s, length (sha O s) = 32%nat
